@@ -3,16 +3,20 @@
 From Coq Require Import String.
 From MV Require Import Base.Prelude Base.SymHash.
 From MV Require C04.Model C04.PMInj.
-From MV Require Import C09.Model C09.MmrProofs C11.Model C11.Proofs C11.ProofsSd.
+From MV Require Import C09.Model C09.MmrProofs C09.RawLeaf C11.Model C11.Proofs C11.ProofsRaw C11.ProofsSd.
 Open Scope N_scope.
 
+(* The Merkle side is C09's BYTE-FAITHFUL verifier (C09/RawLeaf.v): [map_verify_b],
+   [map_contains_b]; the root the client prints, compares and signs over is the root's bytes,
+   [root_bytes pr = norm (map_root pr)]. *)
+
 (* ---- verification of a response: every reported item is vouched for by a verified proof, and
-   all proofs have ONE root, the one the message is recomputed from (legacy: any number of set
-   proofs; v2: a single one) *)
+   all proofs have ONE root (as bytes), the one the message is recomputed from (legacy: any number
+   of set proofs; v2: a single one) *)
 Theorem C11_tx_sound : forall v,
   (exists m, lverify m = Ok v) \/ (exists m, v2verify m = Ok v) ->
   forall i, In i (v_items v) ->
-  exists pr, map_verify pr = true /\ map_root pr = v_root v /\ map_contains pr (BLit (leaf i)) = true.
+  exists pr, map_verify_b pr = true /\ root_bytes pr = v_root v /\ map_contains_b pr (BLit (leaf i)) = true.
 Proof.
   intros v [[m H] | [m H]] i Hi; [exact (tx_sound_legacy m v H i Hi) | exact (tx_sound_v2 m v H i Hi)].
 Qed.
@@ -22,26 +26,57 @@ Theorem C11_legacy_shape : forall m v, lverify m = Ok v ->
   v_lbn v = lm_lbn m /\ v_off v = None /\
   forall i, In i (v_items v) -> exists h part pr,
     i = IHash h /\ In part (lm_parts m) /\ In h (lp_hashes part) /\ lp_proof part = Some pr /\
-    map_verify pr = true /\ map_root pr = v_root v /\ map_contains pr (BLit (leaf i)) = true.
+    map_verify_b pr = true /\ root_bytes pr = v_root v /\ map_contains_b pr (BLit (leaf i)) = true.
 Proof. exact lverify_sound. Qed.
 Theorem C11_v2_shape : forall m v, v2verify m = Ok v ->
   v_lbn v = v2_lbn m /\ v_off v = Some (v2_off m) /\
-  exists pr, v2_part m = Some (v_items v, Some pr) /\ map_verify pr = true /\ map_root pr = v_root v /\
-    forall i, In i (v_items v) -> map_contains pr (BLit (leaf i)) = true.
+  exists pr, v2_part m = Some (v_items v, Some pr) /\ map_verify_b pr = true /\ root_bytes pr = v_root v /\
+    forall i, In i (v_items v) -> map_contains_b pr (BLit (leaf i)) = true.
 Proof. exact v2verify_sound. Qed.
 
-(* with C09's Merkle soundness: when the root is the committed root of a chain (block ranges with
-   their leaves), every reported item is a committed leaf of one of its ranges.  [wf_item]:
-   v2 hashes contain no '/', legacy hashes no '-' (hex text satisfies both). *)
-Theorem C11_tx_committed : forall rs ms v,
+(* what a byte-faithfully verified map proof vouches for, in general: normalised sub-terms of its
+   root — children of a hash and, where a pre-image is one literal (two raw children hashed as
+   their concatenation), its prefixes and suffixes *)
+Theorem C11_map_sound_bytes : forall p x, map_verify_b p = true -> map_contains_b p x = true ->
+  nsub (norm x) (norm (map_root p)).
+Proof. exact map_sound_b. Qed.
+
+(* "every reported item is a committed leaf": FALSE for the faithful model (Refuted.v:
+   C11_refuted_raw_leaf_boundary, known finding C11-raw-leaf-boundary).  Strongest true statement:
+   when the result's root is the root BYTES of a chain (block ranges with their leaves), every
+   reported item is a committed leaf of one of its ranges OR its leaf is a re-cut:
+     recut R x  :=  two RAW siblings a, b under R (block-range key and the single leaf of its
+                    range; two sibling leaves of a range) and x is a prefix or suffix of a ++ b
+                    other than a and b.
+   [wf_item]: v2 hashes contain no '/', legacy hashes no '-' (hex text satisfies both). *)
+Theorem C11_tx_committed_or_recut : forall rs ms R v,
   (exists m, lverify m = Ok v) \/ (exists m, v2verify m = Ok v) ->
-  master_leaves (chain_ranges rs) = Some ms -> mmr_root ms = Some (v_root v) ->
+  master_leaves (chain_ranges rs) = Some ms -> mmr_root ms = Some R -> norm R = v_root v ->
   forall i, In i (v_items v) -> wf_item i ->
-  exists r, In r rs /\ In (leaf i) (map leaf (snd r)).
+  (exists r, In r rs /\ In (leaf i) (map leaf (snd r))) \/ recut R (leaf i).
 Proof.
-  intros rs ms v Hv Hms Hr i Hi W. apply (vouched_committed rs ms v i Hms Hr W).
+  intros rs ms R v Hv Hms Hr Hroot i Hi W. apply (vouched_committed rs ms R v i Hms Hr Hroot W).
   destruct Hv as [[m H] | [m H]]; [exact (tx_sound_legacy m v H i Hi) | exact (tx_sound_v2 m v H i Hi)].
 Qed.
+
+(* holds outside the known class *)
+Theorem C11_tx_committed : forall rs ms R v,
+  (exists m, lverify m = Ok v) \/ (exists m, v2verify m = Ok v) ->
+  master_leaves (chain_ranges rs) = Some ms -> mmr_root ms = Some R -> norm R = v_root v ->
+  forall i, In i (v_items v) -> wf_item i -> ~ recut R (leaf i) ->
+  exists r, In r rs /\ In (leaf i) (map leaf (snd r)).
+Proof.
+  intros rs ms R v Hv Hms Hr Hroot i Hi W Hn.
+  destruct (C11_tx_committed_or_recut rs ms R v Hv Hms Hr Hroot i Hi W) as [H|H]; [exact H | contradiction].
+Qed.
+
+(* the class is empty where the boundary is determined: when all raw sibling pairs under R have
+   members of one length L (legacy leaves are transaction hashes: 64 hex characters on a real
+   chain), a reported leaf of length L is never a re-cut *)
+Theorem C11_no_recut_fixed_length : forall R x (L : nat),
+  (forall a b, sub (Mrg (BLit a) (BLit b)) R -> length a = L /\ length b = L) ->
+  length x = L -> ~ recut R x.
+Proof. exact no_recut_fixed_length. Qed.
 
 (* ---- leaf encodings, byte level: an item whose leaf equals the leaf of an honest item (hashes
    without '/') IS that item — the other side may be arbitrary byte strings *)
@@ -92,21 +127,27 @@ Qed.
 (* (b) root level, unbounded: whatever literal sits under the certified root is a certified leaf *)
 Theorem C11_sd_root_sound : forall d r x, sd_root d = Some r -> sub (BLit x) r -> In x (map sd_leaf d).
 Proof. exact sd_root_sound. Qed.
-(* (c) root level, distributions of at most 12 pools (bound in the statement): equal roots force
-   equal mappings outside the known class, in particular for admissible identifiers *)
-Theorem C11_sd_holds_outside : forall a b, (length a <= 12)%nat -> (length b <= 12)%nat ->
+(* (b') the same at byte level: a literal vouched for under the root BYTES is a certified leaf or a
+   re-cut of two sibling leaves (known finding C11-raw-leaf-boundary, Refuted.v) *)
+Theorem C11_sd_root_sound_bytes : forall d r x, sd_root d = Some r -> nsub (BLit x) (norm r) ->
+  In x (map sd_leaf d) \/ recut r x.
+Proof. exact sd_root_sound_b. Qed.
+(* (c) root level, any number of pools (below 2^63, the u64 sizes of the MMR; C09_mmr_root_inj): equal
+   root TERMS (ideal, pair-injective merge) force equal mappings outside the known class, in
+   particular for admissible identifiers *)
+Theorem C11_sd_holds_outside : forall a b, N.of_nat (length a) < 2 ^ 63 -> N.of_nat (length b) < 2 ^ 63 ->
   sd_root a = sd_root b -> sd_root a <> None -> ~ Known_digit_move a b -> a = b.
 Proof. exact sd_holds_outside. Qed.
-Theorem C11_sd : forall a b, (length a <= 12)%nat -> (length b <= 12)%nat ->
+Theorem C11_sd : forall a b, N.of_nat (length a) < 2 ^ 63 -> N.of_nat (length b) < 2 ^ 63 ->
   (ids_nodigit a /\ ids_nodigit b) \/ (exists L, ids_len L a /\ ids_len L b) ->
   sd_root a = sd_root b -> sd_root a <> None -> a = b.
 Proof.
   intros a b Ha Hb [[Wa Wb] | [L [Wa Wb]]] H Hn; [apply sd_nodigit | apply (sd_len L)]; assumption.
 Qed.
-(* (d) the client's recomputed message matches the signed one only for the signed root and epoch *)
+(* (d) the client's recomputed message matches the signed one only for the signed root (bytes) and epoch *)
 Theorem C11_sd_match : forall certpm d e m root se, pm_wf certpm ->
   fill_sd certpm d e = Ok m -> match_message (pm_hash (signed_sd root se)) m = true ->
-  sd_root d = Some root /\ e = se.
+  sd_root_b d = Some root /\ e = se.
 Proof. exact sd_match. Qed.
 
 (* ---- non-vacuity *)
